@@ -601,6 +601,7 @@ func TestC13(t *testing.T) {
 		{{"bs", "a"}, {"bs", "}"}, {"bs", " "}},
 		{{"nestsq", "W Q"}, {"nestdq", "l"}},
 		{{"count", ""}},
+		{{"lit", "a b:c"}},
 	}
 	patsets := [][]wAtom{
 		nil,
@@ -716,7 +717,7 @@ func TestC13(t *testing.T) {
 				text := ""
 				switch kind {
 				case "lit":
-					text = rapid.SampledFrom([]string{"W", "x", "*", "?", "X*", "*l", "[a-z]", "é", ":", "a.b", "l{1", "{2", "a{1,", "a+", "^a"}).Draw(rt, "lit")
+					text = rapid.SampledFrom([]string{"W", "x", "*", "?", "X*", "*l", "[a-z]", "é", ":", "a.b", "l{1", "{2", "a{1,", "a+", "^a", "a b", "a:b", " "}).Draw(rt, "lit")
 				case "sq":
 					text = rapid.SampledFrom([]string{"W Q", "*", " ", "", "a:b", "é", "}", "}"}).Draw(rt, "sq")
 				case "bs":
